@@ -46,7 +46,7 @@ DEFAULT_PREFIXES = "0.0.0.0/1,128.0.0.0/2,192.0.0.0/3,224.0.0.0/4,10.0.0.0/8,172
 
 
 def bounds(tier, seed):
-    return {"validation_matrix": "16 x 3 x 2 x 7 x 3 x 4", "options_for_placement": len(OPTS),
+    return {"validation_matrix": "16 x 3 x 2 x 7 x 3 x 8", "options_for_placement": len(OPTS),
             "placements": "cli / config / both-conflicting, singles and all pairs"}
 
 
@@ -99,8 +99,8 @@ def run_main(d, argv, cfg_text=None):
 
 def decide(v):
     """Decision table from the statement: 'reject', 'noop', 'accept' or 'either'."""
-    if v["io"] in ("no-input-flag", "no-output-flag"):
-        return "reject"
+    if v["io"] in ("no-input-flag", "no-output-flag") or v["io"].startswith("empty-"):
+        return "reject"   # a missing input or output, whether the option is absent or its value is empty
     if v["hb"] in ("33", "-1", "x"):
         return "reject"
     if v["u"] and v["a"]:
@@ -120,9 +120,17 @@ def decide(v):
 
 def vector_argv(v):
     av = []
-    if v["io"] != "no-input-flag":
+    if v["io"] == "empty-input":
+        av += ["-i", ""]
+    elif v["io"] == "empty-input-config":
+        av += ["-c", "{cfg}"]
+    elif v["io"] != "no-input-flag":
         av += ["-i", "{nowhere}" if v["io"] == "input-does-not-exist" else "{in}"]
-    if v["io"] != "no-output-flag":
+    if v["io"] == "empty-output":
+        av += ["--output="]
+    elif v["io"] == "empty-output-config":
+        av += ["-c", "{cfg}"]
+    elif v["io"] != "no-output-flag":
         av += ["-o", "{out}"]
     for flag, key in (("-a", "a"), ("-p", "p"), ("-u", "u"), ("--preserve-private-addresses", "ppa")):
         if v[key]:
@@ -165,14 +173,19 @@ class Validation(Part):
             else:
                 for salt, dump, hb, extra, io_ in itertools.product(
                         ("absent", "given", "empty"), (False, True), ("absent", "0", "8", "32", "33", "-1", "x"),
-                        ("none", "-w", "-n"), ("both", "no-input-flag", "no-output-flag", "input-does-not-exist")):
+                        ("none", "-w", "-n"), ("both", "no-input-flag", "no-output-flag", "input-does-not-exist", "empty-input", "empty-output",
+                         "empty-input-config", "empty-output-config")):
                     vs.append(dict(case, salt=salt, dump=dump, hb=hb, extra=extra, io=io_))
             for v in vs:
                 res.evals += 1
                 d = box.fresh()
                 av = vector_argv(v)
                 want = decide(v)
-                status, out, dump, extra_paths = run_main(d, av)
+                cfg_text = {"empty-input-config": "input =\n", "empty-output-config": "output =\n"}.get(v["io"])
+                status, out, dump, extra_paths = run_main(d, av, cfg_text)
+                if v["io"].startswith("empty-") and not extra_paths:
+                    # an empty path must not be read as the current directory either: nothing new in it
+                    extra_paths = sorted(set(os.listdir(os.path.join(d, "in"))) - {"r1.cfg"})
                 shutil.rmtree(d, ignore_errors=True)
                 res.out((want, status, out is not None, dump is not None))
                 res.nt(json.dumps(v, sort_keys=True))
